@@ -47,3 +47,14 @@ func (p *StreamPool) VerifConns() []VerifConnState {
 	}
 	return out
 }
+
+// VerifYield, when set, is called at the points where an assembler is about to take a pool or
+// connection lock it does not hold (never inside a critical section).  A conformance harness uses
+// it to park the goroutine and replay a chosen interleaving; it must be set before any assembler runs.
+var VerifYield func(point string)
+
+func verifYield(point string) {
+	if f := VerifYield; f != nil {
+		f(point)
+	}
+}
